@@ -22,6 +22,7 @@ to account for:
     may also differ.
 """
 
+from tangelo.linq import Gate
 from tangelo.linq.helpers import pauli_of_to_string
 
 
@@ -180,7 +181,8 @@ def translate_c_to_sympy(source_circuit):
     for gate in reversed(source_circuit._gates):
         # If the parameter is a string, we use it as a variable.
         if gate.parameter and isinstance(gate.parameter, str):
-            gate.parameter = symbols(gate.parameter, real=True)
+            # Work on a copy to leave the source circuit untouched
+            gate = Gate(gate.name, gate.target, gate.control, symbols(gate.parameter, real=True), gate.is_variational)
 
         if gate.name in {"H", "X", "Y", "Z"}:
             target_circuit *= GATE_SYMPY[gate.name](gate.target[0])
